@@ -238,6 +238,12 @@ func (e *Engine) VerifyFunc(fc *FuncContract) *FuncResult {
 }
 
 func (e *Engine) verifyLemma(l *FuncContract, res *FuncResult) *FuncResult {
+	if l.Trusted != "" {
+		// an assumed lemma (axiom about external functions): nothing to prove, listed as assumption
+		res.Key = e.PkgOf[l].Pkg.Name() + ".lemma." + l.Name
+		res.Assumed = append(res.Assumed, "lemma "+l.Name+" (assumed: "+l.Trusted+")")
+		return res
+	}
 	ctx := &vcCtx{e: e, fnKey: e.PkgOf[l].Pkg.Name() + ".lemma." + l.Name, fuel: l.Fuel}
 	res.Key = ctx.fnKey
 	fr := &frame{e: e, c: ctx, pkg: e.PkgOf[l], vals: map[ssa.Value]*Val{}, pure: true, st: newState(), reach: TTrue, prefix: "lemma!"}
